@@ -25,9 +25,9 @@ def nsets(s):
     return len(s.split(","))
 
 
-def key_closure(fl, mon, thorough, **kw):
+def key_closure(fl, mon, thorough, coll="tree", **kw):
     sets = KEY_SETS_THOROUGH if thorough else KEY_SETS_QUICK
-    return dict(flavour=fl, suite="key-closure", args=dict(mon=mon, sets=sets, max_states=3000000 if thorough else 400000), shards=nsets(sets), timeout=3000 if thorough else 120, **kw)
+    return dict(flavour=fl, suite="key-closure", args=dict(mon=mon, sets=sets, coll=coll, max_states=3000000 if thorough else 400000), shards=nsets(sets), timeout=3000 if thorough else 120, **kw)
 
 
 def ord_closure(fl, mon, thorough, sets_q=ORD_SETS_QUICK, sets_t=ORD_SETS_THOROUGH, **extra):
@@ -125,6 +125,7 @@ def _plan(prop, T):
             jobs=[
                 key_closure("dbg", mon, T),
                 key_closure("rel", mon, T, seed_offset=31),
+                key_closure("dbg", "export", T, coll="list", seed_offset=32),
                 key_random("dbg", mon, "both", 6400, T),
                 key_random("rel", mon, "both", 9600, T),
                 key_random("asan", mon, "both", 3200, T),
@@ -281,6 +282,7 @@ def _plan(prop, T):
     if prop == "C13":
         return dict(
             jobs=[
+                key_closure("dbg", "pred,get,export,empty", T, coll="list"),
                 key_random("dbg", "pred,get,export,empty", "list", 6400, T),
                 key_random("rel", "pred,get,export,empty", "list", 9600, T),
                 key_random("dbg", "pred,get,export,empty", "list", 3200, T, profile="stall-clock,clear-heavy,tiny-dense", seed_offset=11),
@@ -291,8 +293,8 @@ def _plan(prop, T):
                 miri("ord-random", 40, 4, T, mon="lookup,handle,steps", coll="maplist+setlist", **MIRI_ORD),
             ],
             rule="evaluation = one result of KeyExpList / MapList / SetList compared with the same reference models as the trees (handles are positions; steps past either end must give the empty sentinel); distinct non-trivial = distinct (reference contents, operation, probe)",
-            require={"pred_compared_entry": 20000, "get_compared_hit": 2000, "op_export": 2000, "lookup_compared_present": 100000, "handle_compared_entry": 20000, "step_compared_at_end": 2000, "step_compared_inner": 5000},
-            exhaustive_scope="sampled histories (no closure: a list's state is its content)",
+            require={"pred_compared_entry": 20000, "get_compared_hit": 2000, "op_export": 2000, "lookup_compared_present": 100000, "handle_compared_entry": 20000, "step_compared_at_end": 2000, "step_compared_inner": 5000, "states": 5000},
+            exhaustive_scope="KeyExpList: closure to a fixpoint over the listed key universes (state = buffer content + cached earliest expiration, through the verif_state hook); MapList / SetList and larger universes: sampled histories",
             assumptions=["reference models as for C01/C04-C09"],
         )
     if prop == "C14":
@@ -381,6 +383,7 @@ def _plan(prop, T):
         return dict(
             jobs=[
                 key_closure("dbg", mon, T),
+                key_closure("dbg", mon, T, coll="list", seed_offset=41),
                 key_random("dbg", mon, "both", 6400, T),
                 key_random("rel", mon, "both", 6400, T),
                 dict(flavour="dbg", suite="sweep-line", args=dict(mon="cblive", coll="both"), shards=8, budget=240 * (6 if T else 1)),
